@@ -14,3 +14,10 @@ Definition heap_ifaces (s : state) := map_to_list (ifaces s).
 Definition heap_msgs (s : state) := map_to_list (msgs s).
 Definition heap_enums (s : state) := map_to_list (enums s).
 Definition heap_evals (s : state) := map_to_list (evals s).
+
+(* layer 3 *)
+From Acme.C04 Require Export Refs.
+Definition heap_sigs (s : state3) := map_to_list (sigs s).
+Definition refs_list (m : gmap handle (gset handle)) : list (handle * list handle) :=
+  (λ '(h, x), (h, elements x)) <$> map_to_list m.
+Definition builder_list (s : state3) := map_to_list (bus_builder s).
